@@ -164,7 +164,7 @@ def h_quick(ctx, shape, herald, k, postsel, counting):
     ps, pred = _mk_postselect(ctx, postsel, n_user)
     inp = ctx.choice("input", ref.fock_states(n_user, k))
     full_in = ref.insert_heralds(inp, hin) + [0] * n_loss
-    cand = [o for o in ref.fock_states(n_user, k) if pred(o) and (counting or max(o) == 1)]
+    cand = [o for o in ref.fock_states(n_user, k) if pred(o) and (counting or max(o) <= 1)]
     try:
         qs = lw.emulator.QuickSampler(c, lw.State(inp), photon_counting=counting, post_select=ps)
         pd = qs.probability_distribution
